@@ -2,6 +2,7 @@ package h2x
 
 import (
 	"fmt"
+	"strconv"
 	"strings"
 
 	"verifharness/hx"
@@ -209,6 +210,9 @@ func (g *genState) label0() string {
 			}
 			return l
 		}
+		if g.r.Chance(1, 4) {
+			return fmt.Sprintf("S%s:%s", Y, g.settingsList())
+		}
 		switch g.r.Intn(8) {
 		case 0:
 			return fmt.Sprintf("S%s:", Y)
@@ -292,6 +296,38 @@ func GenPreface(r *hx.RNG) []string {
 	return out
 }
 
+// settingsList: a SETTINGS frame as an ordered LIST of (id, value) with repeated identifiers: each of
+// the settings the relay interprets (MAX_FRAME_SIZE, HEADER_TABLE_SIZE, INITIAL_WINDOW_SIZE) up to
+// three times with different values, unknown identifiers in between.  The receiver ends up with
+// the LAST value of each (RFC 7540 6.5.3).  MAX_FRAME_SIZE / HEADER_TABLE_SIZE entries precede the
+// first INITIAL_WINDOW_SIZE entry (frames released by an initial-window change are chunked and
+// HPACK-encoded by the writer goroutine while the reader is still walking the list).
+// A repeated HEADER_TABLE_SIZE makes the peer emit two size updates (known finding C08-K5 when it
+// reaches the relay's decoder): only step-level scripts carry it.
+func (g *genState) settingsList() string {
+	var kv []string
+	unk := func() {
+		if g.r.Chance(1, 2) {
+			kv = append(kv, fmt.Sprintf("%d=%d", g.pick(3, 6, 16, 61440), g.pick(0, 100, 4294967295)))
+		}
+	}
+	for i, n := 0, g.pick(0, 1, 2, 2, 3); i < n; i++ {
+		kv = append(kv, fmt.Sprintf("5=%d", g.pick(16384, 16385, 20000, 32768, 65536)))
+		unk()
+	}
+	if g.profile == "c08" && !g.lockstep {
+		for i, n := 0, g.pick(0, 0, 2, 3); i < n; i++ {
+			kv = append(kv, fmt.Sprintf("1=%d", g.pick(0, 64, 100, 4096, 8192)))
+			unk()
+		}
+	}
+	for i, n := 0, g.pick(0, 1, 2, 2, 3); i < n; i++ {
+		kv = append(kv, fmt.Sprintf("4=%d", g.pick(0, 1, 10, 30, 100, 1000, 65535, 100000)))
+		unk()
+	}
+	return strings.Join(kv, ",")
+}
+
 // GenRegime produces a C09 script in one of three flow-control regimes with several DATA frames
 // queued on ONE stream and grants in every relation to the queued sizes:
 // a: only the connection window binds (stream window 1 MiB, connection window used up),
@@ -357,6 +393,28 @@ func GenRegime(r *hx.RNG, regime byte) []string {
 		}
 		if regime == 'b' {
 			onConn = false
+		}
+		if !onConn && regime != 'a' && r.Chance(1, 4) {
+			// the stream window is changed by a SETTINGS frame carrying INITIAL_WINDOW_SIZE twice:
+			// the LAST value counts (first: a decoy below or above it)
+			cur := 0
+			for _, l := range out {
+				if strings.HasPrefix(l, "Ss:") {
+					for _, e := range strings.Split(l[3:], ",") {
+						if strings.HasPrefix(e, "4=") {
+							cur, _ = strconv.Atoi(e[2:])
+						}
+					}
+				}
+			}
+			decoy := cur + k + pick(-k, 1000)
+			if decoy < 0 {
+				decoy = 0
+			}
+			out = append(out, fmt.Sprintf("Ss:4=%d,16=1,4=%d", decoy, cur+k))
+			win += k
+			emit()
+			continue
 		}
 		if onConn {
 			out = append(out, fmt.Sprintf("Ws:0:%d", k))
